@@ -137,7 +137,7 @@ def check_module(ctx, funcs, strat, k, sc, pid="C12", c13=None, via_rows=False, 
             want_kwd = [p.default is not p.empty for p in s.parameters.values() if int(p.kind) == 3]
             if ndef != want_def or kwd != want_kwd:
                 return ctx.fail(f"{pid}/defaults-differ", spec, f"{where}: positional defaults {ndef}/{want_def}, keyword-only {kwd}/{want_kwd}\n{text}")
-            if w not in ("top", "async", "gen", "staticmethod", "substaticmethod"):
+            if w not in ("top", "async", "gen", "typescoro", "staticmethod", "substaticmethod"):
                 first = (a.posonlyargs + a.args)[0]
                 if first.annotation is not None:
                     return ctx.fail(f"{pid}/receiver-annotated", spec, f"{where}: receiver `{first.arg}` is annotated {ast.unparse(first.annotation)}\n{text}")
